@@ -1,7 +1,7 @@
 """Configuration of ./check for C19 (see tools/props.py)."""
 ENTRY = {'coq_dir': 'C19',
  'harness': 'c19',
- 'coq_deps': ['C18', 'C03'],
+ 'coq_deps': ['C18', 'C03', 'C02', 'C04'],
  'cases': {'quick': 13000, 'thorough': 330000},
  'harness_timeout': 3000,
  'consts': ['C19_KAD_MAX_ADDRESSES', 'C19_KAD_DEFAULT_MAX_MESSAGE_SIZE', 'C19_IDENTIFY_PAYLOAD_SIZE',
